@@ -90,8 +90,41 @@ class P(Prop):
                 m = drv.ask({"op": "sensitivity_transform", "c": cj, "n": nd, "seed": seed})
                 self.cmp("sensitivity_transform", o, r, m, {"c": cj, "n": nd, "seed": seed})
                 self.stats.case([cj, nd], nontrivial=len(c.startpoints(nd)) >= 2, sample={"c": cj, "n": nd} if i < 1 else None)
+                # the analyses themselves, against their models run with the DPLL instance of the solver contract
+                if len(c.inputs()) <= 5:
+                    self.cmp_analyses(drv, c, cj, nd, seed)
             if self.too_many():
                 break
+
+    def cmp_analyses(self, drv, c, cj, nd, seed):
+        case = {"c": cj, "n": nd, "seed": seed}
+        o, r = call(cg.props.sensitize, c, nd)
+        m = drv.ask({"op": "sensitize", "c": cj, "n": nd, "seed": seed})
+        self.corr_cases += 1
+        if m["outcome"] != o or (o == "ok" and (r is not None) != m["sat"]):
+            self.fail("corr", "sensitize", f"sensitize({nd}): impl={o},{r} model={m}", dict(case, op="sensitize"))
+        o, r = call(cg.props.sensitivity, c, nd)
+        m = drv.ask({"op": "sensitivity", "c": cj, "n": nd, "seed": seed})
+        self.corr_cases += 1
+        if m["outcome"] != o or (o == "ok" and r != m["r"]):
+            self.fail("corr", "sensitivity", f"sensitivity({nd}): impl={o},{r} model={m}", dict(case, op="sensitivity"))
+        o, r = call(cg.props.influence, c, nd, approx=False)
+        m = drv.ask({"op": "influence", "c": cj, "n": nd, "seed": seed})
+        self.corr_cases += 1
+        d = ""
+        if m["outcome"] != o:
+            d = f"outcome impl={o} model={m['outcome']}"
+        elif o == "ok":
+            mod = {s: cnt / 2 ** k for s, cnt, k in m["r"]}
+            if set(mod) != set(r) or any(abs(mod[s] - r[s]) > 1e-12 for s in r):
+                d = f"impl={r} model={mod}"
+        if d:
+            self.fail("corr", "influence", f"influence({nd}): {d}", dict(case, op="influence"))
+        o, r = call(cg.props.avg_sensitivity, c, nd, approx=False)
+        m = drv.ask({"op": "avg_sensitivity", "c": cj, "n": nd, "seed": seed})
+        self.corr_cases += 1
+        if m["outcome"] != o or (o == "ok" and abs(m["tot"] / 2 ** m["k"] - r) > 1e-12):
+            self.fail("corr", "avg_sensitivity", f"avg_sensitivity({nd}): impl={o},{r} model={m}", dict(case, op="avg_sensitivity"))
 
     def cmp(self, op, o, r, m, case):
         self.corr_cases += 1
